@@ -476,6 +476,151 @@ def tiny_control_suite(ctx, density=False):
     ctx.ob(ob, ok, "search", "" if ok else "controlled gates are mis-applied when the control weight is tiny")
 
 
+# ---------------------------------------------------------------------------------------------
+# other public entry points: per-gate hooks, fused unitary, circuit as initial state, zero parameters
+
+
+def hooks_suite(ctx, density=False):
+    """`Gate.apply` / `Gate.apply_density_matrix` and `backend.apply_gate(_density_matrix)` called
+    directly (as user code, callbacks and other backends do) on states of every numeric kind"""
+    prop = "C02" if density else "C01"
+    ob = f"{prop}_search_gate_hooks"
+    rng = ctx.rng
+    ok = True
+    gates_src = [
+        ("gates.RX(1, 0.7).controlled_by(0)", "ctrl(RXm, 1)", [0, 1]), ("gates.RX(0, 0.7).controlled_by(2, 1)", "ctrl(RXm, 2)", [2, 1, 0]),
+        ("gates.RX(2, 0.7)", "RXm", [2]), ("gates.CNOT(2, 0)", "np.array([[1, 0, 0, 0], [0, 1, 0, 0], [0, 0, 0, 1], [0, 0, 1, 0]])", [2, 0]),
+        ("gates.Y(1).controlled_by(2)", "ctrl(np.array([[0, -1j], [1j, 0]]), 1)", [2, 1]), ("gates.Unitary(np.kron(RXm, RXm), 2, 0)", "np.kron(RXm, RXm)", [2, 0]),
+        ("gates.CU3(1, 2, 0.3, 0.8, -0.4)", "ctrl(np.array([[np.exp(-0.2j) * np.cos(0.15), -np.exp(-0.6j) * np.sin(0.15)], [np.exp(0.6j) * np.sin(0.15), np.exp(0.2j) * np.cos(0.15)]]), 1)", [1, 2]),
+    ]
+    for kind in ("float64", "complex128", "complex64", "int64"):
+        for gsrc, msrc, qs in gates_src:
+            seed = rng.randint(0, 2**31)
+            body = (f"DENSITY = {density}\nRXm = np.array([[np.cos(0.35), -1j * np.sin(0.35)], [-1j * np.sin(0.35), np.cos(0.35)]])\nr = np.random.default_rng({seed})\n"
+                    f"kind = '{kind}'\n"
+                    "if kind == 'int64':\n    psi = r.integers(-3, 4, size=8).astype(float); psi[0] += 1\n"
+                    "elif kind == 'float64':\n    psi = r.normal(size=8)\nelse:\n    psi = r.normal(size=8) + 1j * r.normal(size=8)\n"
+                    "state = (np.outer(psi, np.conj(psi)) if DENSITY else psi).astype(kind)\nkeep = state.copy()\n"
+                    f"g = {gsrc}\nm = {msrc}\n"
+                    "ref = ref_apply(psi.astype(complex), m, " + repr(qs) + ", 3)\nref = dm_of(ref) if DENSITY else ref\n"
+                    "a = np.asarray(g.apply_density_matrix(nb, state, 3) if DENSITY else g.apply(nb, state, 3))\n"
+                    "same = np.array_equal(state, keep)\n"
+                    f"g2 = {gsrc}\n"
+                    "b = np.asarray(nb.apply_gate_density_matrix(g2, keep.copy(), 3) if DENSITY else nb.apply_gate(g2, keep.copy(), 3))\n"
+                    "scale = max(1.0, float(np.abs(ref).max()))\ntol = (1e-4 if kind == 'complex64' else 1e-9) * scale\n"
+                    "d = max(np.abs(a - ref).max(), np.abs(b - ref).max())\n")
+            key = f"gate-hook:{kind}:" + ("controlled" if "controlled_by" in gsrc else "plain")
+            ctx.case((key, gsrc))
+            ctx.stat(f"gate_hooks:{kind}")
+            env = dict(ns())
+            try:
+                exec(body, env)  # noqa: S102
+            except Exception as e:  # noqa: BLE001
+                if kind == "int64" and isinstance(e, (TypeError, ValueError)):
+                    ctx.stat("gate_hooks:int64:refused")
+                    continue
+                ok = False
+                _fail(ctx, key + ":raises", f"{type(e).__name__}: {e} ({gsrc}, {kind})", body + "sys.exit(0)\n", ob)
+                continue
+            if not env["d"] < env["tol"]:
+                ok = False
+                _fail(ctx, key, f"{gsrc} applied through Gate.apply{'_density_matrix' if density else ''} / backend.apply_gate{'_density_matrix' if density else ''} to a {kind} "
+                      f"{'density matrix' if density else 'state'}: deviation {env['d']:.3e} from the explicit contraction (input unchanged: {env['same']})",
+                      body + "print(d, same)\nsys.exit(0 if d < tol else 1)\n", ob)
+    ctx.ob(ob, ok, "search", "" if ok else "a per-gate entry point mis-applies a gate")
+
+
+def views_suite(ctx, density=False):
+    """the same circuit through its other public views: `fuse().unitary()`, `unitary()` of a
+    circuit holding fused gates, a circuit used as initial state after its own earlier execution
+    from a custom state, a density-matrix circuit handed a state vector (refused or right), and
+    every parametrised class with all parameters zero / equal"""
+    prop = "C02" if density else "C01"
+    ob = f"{prop}_search_views"
+    rng = ctx.rng
+    ok = True
+    pool = _gate_pool()
+    for it in range(6 if ctx.thorough else 3):
+        lines = [f"DENSITY = {density}", "c = Circuit(3, density_matrix=DENSITY)", "prep = Circuit(3, density_matrix=DENSITY)", "ops = []", "pops = []"]
+        for tgt, lst, cnt in (("c", "ops", rng.randint(6, 14)), ("prep", "pops", rng.randint(2, 5))):
+            for _ in range(cnt):
+                g, o = rng.choice(pool)
+                a, b, c_ = rng.sample(range(3), 3)
+                f = {"a": a, "b": b, "c": c_, "t": repr(round(rng.uniform(-3, 3), 5))}
+                lines.append(f"{tgt}.add({g.format(**f)}); {lst}.append({o.format(**f)})")
+        seed = rng.randint(0, 2**31)
+        body = "\n".join(lines) + (f"\nr = np.random.default_rng({seed})\npsi = r.normal(size=8) + 1j * r.normal(size=8); psi /= np.linalg.norm(psi)\n"
+                                   "U = np.eye(8, dtype=complex)\nfor m, qs in ops:\n    U = np.stack([ref_apply(U[:, j], m, qs, 3) for j in range(8)], axis=1)\n"
+                                   "res = {}\n"
+                                   "res['unitary'] = np.abs(np.asarray(c.unitary(nb)) - U).max()\n"
+                                   "for mq in (1, 2, 3):\n"
+                                   "    fc = c.fuse(max_qubits=mq)\n"
+                                   "    res[f'fuse{mq}-unitary'] = np.abs(np.asarray(fc.unitary(nb)) - U).max()\n"
+                                   "    out = np.asarray(nb.execute_circuit(fc, initial_state=(dm_of(psi) if DENSITY else psi).copy()).state())\n"
+                                   "    ref = U @ psi; ref = dm_of(ref) if DENSITY else ref\n"
+                                   "    res[f'fuse{mq}-execute'] = np.abs(out - ref).max()\n"
+                                   "# the preparation circuit is first executed from a custom state, then used as initial state\n"
+                                   "nb.execute_circuit(prep, initial_state=(dm_of(psi) if DENSITY else psi).copy())\n"
+                                   "out = np.asarray(nb.execute_circuit(c, initial_state=prep).state())\n"
+                                   "ref = ref_run(3, pops + ops); ref = dm_of(ref) if DENSITY else ref\n"
+                                   "res['circuit-as-initial-state'] = np.abs(out - ref).max()\n"
+                                   "out = np.asarray(nb.execute_circuit(c, initial_state=prep).state())\n"
+                                   "res['circuit-as-initial-state-again'] = np.abs(out - ref).max()\n"
+                                   "if DENSITY:\n"
+                                   "    try:\n"
+                                   "        out = np.asarray(nb.execute_circuit(c, initial_state=psi.copy()).state())\n"
+                                   "        res['vector-for-density-matrix'] = np.abs(out - dm_of(U @ psi)).max()\n"
+                                   "    except Exception:\n        pass\n"
+                                   "worst = max(res, key=res.get)\n")
+        ctx.case(("views", it, seed))
+        ctx.stat("views")
+        env = dict(ns())
+        try:
+            exec(body, env)  # noqa: S102
+        except Exception as e:  # noqa: BLE001
+            ok = False
+            _fail(ctx, "views:raises", f"{type(e).__name__}: {e}", body + "sys.exit(0)\n", ob)
+            continue
+        res = env["res"]
+        for k, v in res.items():
+            if not v < 1e-9:
+                ok = False
+                _fail(ctx, f"views:{k.rstrip('123')}" if k.startswith("fuse") else f"views:{k}", f"{k} of a random 3-qubit circuit deviates by {v:.3e} from the product of the documented matrices",
+                      body + f"print(res)\nsys.exit(0 if res[{k!r}] < 1e-9 else 1)\n", ob)
+    # all parameters zero / all equal, every parametrised class, executed in a circuit
+    from vlib import qgates
+
+    infos = qgates.gate_infos()
+    names = [nm for nm, inf in sorted(infos.items()) if inf.generic and inf.np and 1 <= inf.nq <= 3]
+    for t in (0.0, 0, np.pi, 0.5):
+        body = f"DENSITY = {density}\nfrom qibo.backends import NumpyBackend\nbad = []\nr = np.random.default_rng(5)\n"
+        body += "psi = r.normal(size=16) + 1j * r.normal(size=16); psi /= np.linalg.norm(psi)\n"
+        for nm in names:
+            inf = infos[nm]
+            qs = rng.sample(range(4), inf.nq)
+            ps = [t] * inf.np
+            body += ("try:\n"
+                     f"    g = gates.{nm}(*{qs}, *{ps!r})\n    m0 = np.asarray(gates.{nm}(*{list(range(len(qs)))}, *{[float(x) + 0.0 for x in ps]!r}).matrix(NumpyBackend()))\n"
+                     "    c = Circuit(4, density_matrix=DENSITY); c.add(gates.H(0)); c.add(g)\n"
+                     "    out = np.asarray(nb.execute_circuit(c, initial_state=(dm_of(psi) if DENSITY else psi).copy()).state())\n"
+                     f"    ref = ref_apply(ref_apply(psi, {_H}, [0], 4), m0, {qs}, 4); ref = dm_of(ref) if DENSITY else ref\n"
+                     f"    if not np.allclose(out, ref, atol=1e-9): bad.append(('{nm}', {qs}))\n"
+                     "except ValueError:\n    pass\n")
+        ctx.case(("all-equal-parameters", repr(t)))
+        ctx.stat("views:all-equal-parameters", len(names))
+        env = dict(ns())
+        try:
+            exec(body, env)  # noqa: S102
+            if env["bad"]:
+                ok = False
+                _fail(ctx, "views:all-equal-parameters", f"gates with every parameter = {t!r} executed after H(0): {env['bad'][:6]} are not applied as their own matrix",
+                      body + "print(bad)\nsys.exit(1 if bad else 0)\n", ob)
+        except Exception as e:  # noqa: BLE001
+            ok = False
+            _fail(ctx, "views:raises", f"{type(e).__name__}: {e}", body + "sys.exit(0)\n", ob)
+    ctx.ob(ob, ok, "search", "" if ok else "another public view of the circuit deviates")
+
+
 def run_suites(ctx, density=False):
     qulacs_suite(ctx, density)
     wide_suite(ctx, density)
@@ -483,3 +628,5 @@ def run_suites(ctx, density=False):
     caller_array_suite(ctx, density)
     deep_suite(ctx, density)
     tiny_control_suite(ctx, density)
+    hooks_suite(ctx, density)
+    views_suite(ctx, density)
